@@ -31,7 +31,7 @@ META = {
     "explanation": "states = command lines executed through the real main(); transitions = assignments on which printed and computed functions are compared.",
 }
 
-HEADER = "from qlasskit import qlassf, Qint, Qint2, Qint4, Qlist\nfrom typing import Tuple\n\n"
+HEADER = "from qlasskit import qlassf, Qint, Qint2, Qint4, Qlist, Parameter\nfrom typing import Tuple\n\n"
 
 POOL = {
     "and2": "@qlassf\ndef and2(a: bool, b: bool) -> bool:\n    return a and b\n",
@@ -51,15 +51,46 @@ POOL = {
     "fls": "@qlassf\ndef fls(a: Qint[2], b: bool) -> bool:\n    return (a > 3) or (b and not b)\n",
     "ctr": "@qlassf\ndef ctr(a: bool, b: bool) -> Tuple[bool, bool]:\n    return (a and b, not a)\n",
     "tmp": "@qlassf\ndef tmp(a: bool, b: bool, c: bool) -> bool:\n    d = a and b\n    e = d ^ c\n    return (e or d) and not (a and b and c)\n",
+    # arguments called like positional qubit names, in a circuit that has an unnamed scratch qubit
+    "vot": "@qlassf\ndef vot(q7: bool, q8: bool, q9: bool) -> Tuple[bool, bool]:\n    return (q7 or q8 or q9, (q7 and q8) or (q8 and q9) or (q7 and q9))\n",
 }
 NAMES = sorted(POOL)
+
+# units that bind functions to module names different from the name in their def statement: attribute -> (def source, bind kwargs)
+_GATE = "def sel(k: Parameter[bool], a: bool, b: bool) -> bool:\n    return (a and b) if k else (a or b)\n"
+_F1 = "def f(a: bool) -> bool:\n    return a\n"
+_F2 = "def f(a: bool) -> bool:\n    return not a\n"
+UNITS = {
+    "bnd": ("@qlassf\n" + _GATE + "both = sel.bind(k=True)\nsel = sel.bind(k=False)\n",
+            {"both": (_GATE, {"k": True}), "sel": (_GATE, {"k": False})}),
+    "als": ("@qlassf\n" + _F1 + "neg = qlassf(%r)\n" % _F2,
+            {"f": (_F1, None), "neg": (_F2, None)}),
+}
+
+
+def unit_text(u):
+    return UNITS[u][0] if u in UNITS else POOL[u]
+
+
+def unit_attrs(u):
+    return sorted(UNITS[u][1]) if u in UNITS else [u]
+
+
+def reference(target):
+    for u in UNITS:
+        if target in UNITS[u][1]:
+            src, kw = UNITS[u][1][target]
+            qf = H.compile_src(src, "default", True)
+            return qf.bind(**kw) if kw else qf
+    return H.compile_src(POOL[target].replace("@qlassf\n", ""), "default", True)
 
 
 def scripts(tier):
     out = [[n] for n in NAMES]
     multi = [["and2", "or2"], ["or2", "and2"], ["xr3", "maj"], ["maj", "xr3"], ["gt2", "add2"], ["add2", "gt2"], ["tmp", "idn"],
              ["cst", "orn3"], ["orn3", "eq3", "mux"], ["mux", "eq3", "orn3"], ["idn", "tmp", "and2"], ["eq3", "cst", "gt2"],
-             ["add2", "mux", "or2"], ["maj", "and2", "tmp"], ["rng", "idn"], ["fls", "ctr"], ["ctr", "fls", "cst"]]
+             ["add2", "mux", "or2"], ["maj", "and2", "tmp"], ["rng", "idn"], ["fls", "ctr"], ["ctr", "fls", "cst"],
+             ["bnd"], ["als"], ["bnd", "idn"], ["als", "and2"]]
     if tier == "thorough":
         multi += [list(p) for p in itertools.permutations(["and2", "xr3", "gt2"], 3)] + [list(p) for p in itertools.permutations(["tmp", "add2"], 2)] + \
                  [["orn3", "or2"], ["or2", "orn3"], ["eq3", "idn"], ["idn", "eq3"], ["cst", "maj", "mux"], ["mux", "maj", "cst"], ["gt2", "tmp"], ["tmp", "gt2"]]
@@ -81,7 +112,8 @@ def shards(tier):
 def cases(shard):
     tier = shard["tier"]
     sc = scripts(tier)[shard["si"]]
-    entries = [None] + sc if len(sc) == 1 else list(sc)
+    attrs = [a for u in sc for a in unit_attrs(u)]
+    entries = [None] + attrs if len(attrs) == 1 else attrs
     k = 0
     if shard["tool"] == "py2bexp":
         for form in FORMS:
@@ -158,7 +190,7 @@ def run_case(case):
 
 def _run(case, scratch):
     sc = case["script"]
-    text = HEADER + "\n".join(POOL[n] for n in sc)
+    text = HEADER + "\n".join(unit_text(n) for n in sc)
     argv = []
     stdin_text = None
     if case["in"] == "file":
@@ -177,7 +209,7 @@ def _run(case, scratch):
     target = case["entry"] or sc[0]
     bad = []
     # what the library computes for the selected function
-    qf = H.compile_src(POOL[target].replace("@qlassf\n", ""), "default", True)
+    qf = reference(target)
     names = H.input_names(qf)
     n = len(names)
     env, M = sim.boolev_list(qf.expressions, names)
